@@ -47,6 +47,12 @@ func scenarioC13(r *Run) {
 		vsim.RandCfg = vsim.RandConfig{Mode: vsim.RandRepeat, Cycle: 1 + r.Ch.Choose(2, "cycle")}
 		r.Fault("adversarial-prng-repeats")
 	}
+	// the listed finding (a later session inherits the F-SEID of a dead one) needs a
+	// random source that repeats itself; the same symptom without one is something else
+	reuseTag := ""
+	if !reuse {
+		reuseTag = ":random-source-not-adversarial"
+	}
 	p := r.AddPeer()
 	r.StartAgent()
 	if up4 {
@@ -137,6 +143,8 @@ func scenarioC13(r *Run) {
 		binary.LittleEndian.PutUint64(b, fseid)
 		r.W.Net.UnixInject("/tmp/notifycp", b)
 	}
+	reassociated := false
+	rxBoundary := -1
 	nrep := 5 + r.Ch.Choose(36, "nreports")
 	for k := 0; k < nrep && r.AgentAlive(); k++ {
 		// choose the target
@@ -285,6 +293,57 @@ func scenarioC13(r *Run) {
 			r.Skel(fmt.Sprintf("uF-no-action:%v", res.Accepted))
 			r.Probe("update-far-without-apply-action")
 		}
+		// occasionally the association is released and set up again (same peer address),
+		// with new sessions: they are sessions of their own, their first reports are
+		// forwarded whatever was notified for the sessions of the old association
+		if !up4 && !reuse && !flood && !reassociated && r.Ch.Choose(12, "reassociate") == 1 {
+			reassociated = true
+			p.Release()
+			rxBoundary = len(p.Rx) // (sequence numbers are counted per association)
+			for _, x := range sessions {
+				x.live = false
+			}
+			p.Sessions = map[uint64]*CPSession{}
+			r.Sim.RunFor(50 * time.Millisecond)
+			if p.AssociateRetry() == nil {
+				r.Inconclusive++
+				return
+			}
+			sessions = nil
+			for i := 0; i < 1+r.Ch.Choose(2, "nsess-after-reassociation"); i++ {
+				mk()
+			}
+			r.Skel("reassociated")
+			r.Probe("association-released-and-set-up-again")
+			r.Op("association released and set up again; %d new session(s)", len(sessions))
+			if len(sessions) == 0 {
+				return
+			}
+			continue
+		}
+		// occasionally (P4Runtime) the control plane asks for forwarding instead of
+		// buffer-and-notify while one Write RPC of that modification fails: the request
+		// is refused, the session is what it was and its reports are forwarded as before
+		if up4 && r.Ch.Choose(10, "refused-far-update") == 1 && target != nil && target.live && target.notify {
+			g.nextTEID++
+			nf := &FARSpec{ID: 2, Action: ActFORW, DstIface: IfAccess, HasFwd: true, HasOHC: true, TEID: g.nextTEID, PeerIP: ip4("198.18.1.10")}
+			r.W.P4.FailKind = "transport"
+			r.W.P4.Faults.FailNth = r.W.P4.Writes + 1 + r.Ch.Choose(3, "which-write-of-the-update")
+			res := p.Modify(target.s, &ModSpec{Tag: "uF:forward", UpdateFAR: []*FARSpec{nf}})
+			hit := r.W.P4.Faults.FailNth != 0 && r.W.P4.Writes >= r.W.P4.Faults.FailNth
+			r.W.P4.Faults.FailNth = 0
+			r.Op("session up=%d: Update FAR to forwarding with a failing Write (hit: %v) -> accepted=%v", target.s.UPSEID, hit, res.Accepted)
+			r.Skel(fmt.Sprintf("uF-forward-failing-write:%v", res.Accepted))
+			if res.Rx == nil {
+				r.Inconclusive++
+				return
+			}
+			if res.Accepted {
+				target.notify = false // it forwards now: no more notifications
+			} else {
+				r.Fault("p4-write-fails-in-far-update")
+			}
+		}
 		// occasionally delete a session / create a new one (SEID reuse when the PRNG repeats)
 		if r.Ch.Choose(10, "churn") == 1 && target != nil && target.live {
 			// (P4Runtime: one Write RPC of the deletion may fail; the deletion is then
@@ -383,7 +442,10 @@ func scenarioC13(r *Run) {
 	// observed Session Report Requests
 	var got []*RxMsg
 	seqSeen := map[uint32]bool{}
-	for _, m := range p.Rx {
+	for i, m := range p.Rx {
+		if i == rxBoundary {
+			seqSeen = map[uint32]bool{}
+		}
 		if m.Err != nil {
 			continue
 		}
@@ -404,7 +466,7 @@ func scenarioC13(r *Run) {
 		if gi >= len(got) {
 			what := "missing-notification"
 			if e.si.gen == 0 && r.Probes["first-report-of-session-with-reused-fseid"] > 0 {
-				what = "first-report-suppressed:fseid-reuse"
+				what = "first-report-suppressed:fseid-reuse" + reuseTag
 			}
 			r.Violate("C13", what, "report for session cp=%d up=%d at t=%.3fs should have been forwarded (reference notifier), no Session Report Request arrived", e.si.s.CPSEID, e.si.s.UPSEID, float64(e.at)/1e9)
 			return
@@ -417,7 +479,7 @@ func scenarioC13(r *Run) {
 			if d > 0 {
 				what = "missing-notification"
 				if r.Probes["first-report-of-session-with-reused-fseid"] > 0 {
-					what = "first-report-suppressed:fseid-reuse"
+					what = "first-report-suppressed:fseid-reuse" + reuseTag
 				}
 			}
 			r.Violate("C13", what, "expected a notification for the report at t=%.3fs (session cp=%d); next Session Report Request arrived at t=%.3fs for SEID %d", float64(e.at)/1e9, e.si.s.CPSEID, float64(m.At)/1e9, srr.SEID())
@@ -440,7 +502,7 @@ func scenarioC13(r *Run) {
 		if !okSEID && e.reusedFirst {
 			// the request that arrived belongs to a later report of another session:
 			// this one (the listed finding) was suppressed
-			r.Violate("C13", "first-report-suppressed:fseid-reuse", "report for session cp=%d up=%d at t=%.3fs should have been forwarded (first report of the session), the next Session Report Request carries SEID %d", e.si.s.CPSEID, e.si.s.UPSEID, float64(e.at)/1e9, srr.SEID())
+			r.Violate("C13", "first-report-suppressed:fseid-reuse"+reuseTag, "report for session cp=%d up=%d at t=%.3fs should have been forwarded (first report of the session), the next Session Report Request carries SEID %d", e.si.s.CPSEID, e.si.s.UPSEID, float64(e.at)/1e9, srr.SEID())
 			return
 		}
 		if !okSEID {
